@@ -40,11 +40,14 @@ def race_scenarios(rng, tier):
     # a wakeup for exactly simulation time 0 (falsy!) held next to later ones: an immediate callback asked at the
     # initial tick, or an interrupt raised before a late scheduler is up; the other device's callbacks END, so that
     # a starved wakeup would surface as a tick in the past
+    # (in which order the two answers of the initial tick arrive depends on the iteration order of a SET of names, i.e. on the
+    #  process's hash seed: every shape is run under several namings so that each order occurs whatever the seed)
     for order in (0, 1):
-        comps = [dev("z", cb={"kind": "list", "delays": [0, None, None]}), dev("a", cb={"kind": "list", "delays": [P, P, None]})]
-        out.append({"components": comps[::-1] if order else comps, "n_ticks": 5, "t0": 0})
-        comps = [dev("x"), dev("a", cb={"kind": "list", "delays": [P, P, None]})]
-        out.append({"components": comps[::-1] if order else comps, "n_ticks": 5, "t0": 0, "start_delays": {"": 3}, "stims": [{"step": 2, "comp": "x"}]})
+        for (zn, an) in (("z", "a"), ("a", "z"), ("p", "q"), ("q", "p"), ("dev1", "dev2"), ("dev2", "dev1")):
+            comps = [dev(zn, cb={"kind": "list", "delays": [0, None, None]}), dev(an, cb={"kind": "list", "delays": [P, P, None]})]
+            out.append({"components": comps[::-1] if order else comps, "n_ticks": 5, "t0": 0})
+            comps = [dev(zn), dev(an, cb={"kind": "list", "delays": [P, P, None]})]
+            out.append({"components": comps[::-1] if order else comps, "n_ticks": 5, "t0": 0, "start_delays": {"": 3}, "stims": [{"step": 2, "comp": zn}]})
     # bursts: interrupts of one device a fraction of a millisecond of real time apart, with ticks of a fast periodic
     # device in between (whatever an interrupt is stamped with must not lie before a tick that already happened)
     for gap in (150_000, 400_000, 900_000):
